@@ -102,12 +102,13 @@ class ParameterSection(Micheline, prim='parameter', args_len=1):
         if isinstance(self.item, OrType):
             path_to_key, _, _ = self.item.get_type_layout(entrypoints=True)
             assert isinstance(path_to_key, dict), f'expected named type'
-            # resolve to the deepest annotated node on the value's path, the root entrypoint otherwise
+            # resolve to the deepest annotated node on the value's path, the root entrypoint otherwise;
+            # a branch named like the root entrypoint is shadowed by it in `from_parameters`, skip it
             node, path = self.item, ''
             while isinstance(node, OrType):
                 idx = 0 if node.is_left() else 1
                 node, path = node.items[idx], path + str(idx)  # type: ignore
-                if path in path_to_key:
+                if path in path_to_key and path_to_key[path] != self.root_name:
                     entrypoint, item = path_to_key[path], node
         return {
             'entrypoint': entrypoint,
